@@ -294,14 +294,14 @@ def extract_pin_cite(
     if m:
         if m["pin_cite"]:
             pin_cite = clean_pin_cite(m["pin_cite"])
-            extra_chars = len(m["pin_cite"].rstrip(", "))
+            extra_chars = len(m["pin_cite"].rstrip(", ")) - len(prefix)
         else:
             pin_cite = None
             extra_chars = 0
         parenthetical = process_parenthetical(m["parenthetical"])
         return (
             pin_cite,
-            from_token.end + extra_chars - len(prefix),
+            from_token.end + extra_chars,
             parenthetical,
         )
     return None, None, None
